@@ -13,8 +13,8 @@ from mc import util
 
 ID = 'C18'
 LEVEL = 'exploration'
-RULE = ('expressions = 16 forms (call with positional / keyword / starred arguments, attribute, subscript, 2- and 3-part slices, '
-        'binary, unary, single compare, list / tuple / set / dict display, and the lazy forms and / or / ifexp / lambda / '
+RULE = ('expressions = 19 forms (call with positional / keyword / starred arguments, attribute, subscript, 2- and 3-part slices, '
+        'binary, unary, single compare, list / tuple / set / dict display, displays with * and ** unpacking, and the lazy forms and / or / ifexp / lambda / '
         'comprehension / chained compare) with a traced call t(i) in every operand position; depth 2 = one nested form at each '
         'operand position (thorough: depth 3); statement positions = expr, assign to name / attribute / subscript / tuple, '
         'augassign, return, raise, if test, for iterable, with item, del, while body; configurations = default + edge-pattern '
@@ -36,6 +36,7 @@ FORMS = [
     ('attr', '%s.a', 1, False), ('sub', '%s[%s]', 2, False), ('slice2', '%s[%s:%s]', 3, False), ('slice3', '%s[%s:%s:%s]', 4, False),
     ('bin', '(%s + %s)', 2, False), ('mul', '(%s * %s)', 2, False), ('neg', '(-%s)', 1, False), ('cmp', '(%s < %s)', 2, False),
     ('list', '[%s, %s]', 2, False), ('tuple', '(%s, %s)', 2, False), ('set', '{%s, %s}', 2, False), ('dict', '{%s: %s, %s: %s}', 4, False),
+    ('liststar', '[%s, *%s, %s]', 3, False), ('tuplestar', '(*%s, %s)', 2, False), ('dictstar', '{**%s, %s: %s}', 3, False),
     ('and', '(%s and %s)', 2, True), ('or', '(%s or %s)', 2, True), ('ifexp', '(%s if %s else %s)', 3, True),
     ('cmpchain', '(%s < %s < %s)', 3, True), ('cmpchain_names', '(x < y < %s)', 1, True), ('and_name', '(x and %s)', 1, True),
     ('ifexp_name', '(%s if x else y)', 1, True), ('lambda', '(lambda: %s)', 1, True), ('listcomp', '[%s for j in %s]', 2, True),
@@ -197,7 +198,9 @@ class V(object):
 
   def _new(self, what, *others):
     self.env.n += 1
-    ident = 'r%d' % self.env.n
+    # structural identity (what was computed from what), so that results stay comparable when two runs differ in the
+    # order of their operations
+    ident = '%s(%s)' % (what, ','.join(str(x) for x in (self.ident,) + tuple(rid(o) for o in others)))
     self.env.log.append((what, self.ident) + tuple(rid(o) for o in others) + (ident,))
     return V(self.env, ident)
 
@@ -283,12 +286,14 @@ def rid(o):
     return tuple(rid(x) for x in o)
   if callable(o):
     return '<callable>'
+  if isinstance(o, slice):
+    return ('slice', rid(o.start), rid(o.stop), rid(o.step))    # no object addresses in the log
   return repr(o)
 
 
 def idx(k):
   if isinstance(k, slice):
-    return ('slice', getattr(k.start, 'ident', k.start), getattr(k.stop, 'ident', k.stop), getattr(k.step, 'ident', k.step))
+    return ('slice', rid(k.start), rid(k.stop), rid(k.step))
   return rid(k)
 
 
@@ -443,12 +448,11 @@ def check_item(item, swap=False):
     # the name asks once more): truth queries steer control flow but are not compared
     lo = [e for e in lo if e[0] != 'bool']
     lt = [e for e in lt if e[0] != 'bool']
-    if lo != lt:
+    if lo != lt and not any(v[0] == 'order' for v in viol):
       viol.append(('order', 'effects differ with truth pattern %s: %s' % (bin(bits), first_inversion(lo, lt))))
-      break
-    if ro != rt:
-      viol.append(('value', 'result differs: original %r, transformed %r' % (ro, rt)))
-      break
+    if ro != rt and not any(v[0] == 'value' for v in viol):
+      # identities are structural, so the results are comparable even when the order of the effects differs
+      viol.append(('value', 'result differs with truth pattern %s: original %r, transformed %r' % (bin(bits), ro, rt)))
   return src + '\n# ---\n' + tsrc, viol, status
 
 
@@ -487,7 +491,9 @@ def known_class(item, kind, msg):
   if sname in ('assign_attr', 'assign_sub', 'aug_attr', 'aug_sub', 'del_sub', 'del_attr', 'with'):
     return 'order|operands-of-a-store-delete-or-with-target-are-hoisted-out-of-statement-order'
   flat = [d for d in desc if isinstance(d, str)]
-  if flat and flat[0] == 'dict' and len(desc) == 1:
+  if any(f in ('liststar', 'tuplestar', 'dictstar') for f in flat) and ("original ('iter'" in msg or "original ('getitem'" in msg):
+    return 'order|unpacking-of-a-starred-display-element-is-delayed-past-the-evaluation-of-later-elements'
+  if flat and flat[0] in ('dict', 'dictstar') and len(desc) == 1:    # a ** operand sits in the values list
     return 'order|dict-display-all-keys-hoisted-before-the-values'
   if len(desc) >= 3 or 'callkwstar' in flat:     # callkwstar nests a call (kwd(...)) by construction
     return 'order|operands-of-a-nested-later-operand-are-hoisted-before-an-earlier-sibling'
